@@ -346,6 +346,46 @@ func TestC14(t *testing.T) {
 		}
 	}
 
+	// ---- an *Error whose Data is valid but not compact JSON (indented, with line breaks): on the
+	// wire the reply is still one line of valid JSON, and the data arrive JSON-equal
+	for i, data := range []string{"{\n  \"a\": 1,\n  \"b\": [1,\n 2]\n}", " [ 1 ,\t2 ] ", "\"x\"", `{"k":[1,2,{"z":null}]}`, "[\r\n]"} {
+		res.Case(fmt.Sprintf("error-data-wire/%d", i), true, data)
+		cli, sch := rawPair()
+		rs := jrpc2.NewServer(handler.Map{"e": func(ctx context.Context, req *jrpc2.Request) (any, error) {
+			return nil, &jrpc2.Error{Code: 4001, Message: "with data", Data: json.RawMessage(data)}
+		}}, nil).Start(sch)
+		cli.Send([]byte(`{"jsonrpc":"2.0","id":1,"method":"e"}`))
+		got := make(chan []byte, 1)
+		go func() { b, _ := cli.Recv(); got <- b }()
+		select {
+		case reply := <-got:
+			var obj struct {
+				Error *struct {
+					Code int             `json:"code"`
+					Data json.RawMessage `json:"data"`
+				} `json:"error"`
+			}
+			bad := ""
+			for _, c := range reply {
+				if c < 0x20 {
+					bad = fmt.Sprintf("control byte 0x%02x in the reply", c)
+				}
+			}
+			switch {
+			case !json.Valid(reply) || json.Unmarshal(reply, &obj) != nil || obj.Error == nil:
+				res.Violatef("*Error with data: malformed or missing error response", data, "reply %q", reply)
+			case bad != "":
+				res.Violatef("*Error with data: the reply is not a single line", data, "%s: %q", bad, reply)
+			case obj.Error.Code != 4001 || !jsonEqual(obj.Error.Data, []byte(data)):
+				res.Violatef("*Error data changed", data, "reply %q", reply)
+			}
+		case <-time.After(5 * time.Second):
+			res.Violatef("*Error with data: no reply", data, "")
+		}
+		cli.Close()
+		rs.Wait()
+	}
+
 	// ---- the same for the handler on the other side: a client's OnCallback handler answering a
 	// server Callback. Raw peer first (what is on the wire), then a real server.
 	for _, m := range []string{"bad", "badch", "nan", "rawbad", "rawtrunc", "rawptr", "marshaler", "e"} {
